@@ -488,9 +488,20 @@ def patternise(rng, a, p=0.8):
         for k in range(len(sh)):
             if sh[k] >= 2:
                 opts.append(('expand', k))
+        if len(sh) == 1 and sh[0] >= 2:
+            # an "observed value": all weight on ONE value of the domain, held as a one-hot pattern without physical axes
+            opts += [('onehot', rng.randrange(sh[0]))] * 2
         if not opts:
             continue
         o = rng.choice(opts)
+        if o[0] == 'onehot':
+            keep = o[1]
+            a2['w'][t] = [a2['w'][t][i] if i == keep else 0 for i in range(sh[0])]
+            a2['wmp'][t] = [a2['wmp'][t][i] if i == keep else NINF for i in range(sh[0])]
+            if a2['w'][t][keep] in (0, INF):
+                a2['w'][t][keep], a2['wmp'][t][keep] = 2, -1
+            pat[t] = list(o)
+            continue
         cw, cm = rng.choice([(0, NINF), (1, 0), (2, -1), (1, 0), (3, 1)])
         for flat, idx in enumerate(itertools.product(*[range(n) for n in sh])):
             if o[0] == 'diag':
@@ -510,7 +521,12 @@ def pattern_hooks(pat):
     from fggs.indices import PatternedTensor, PhysicalAxis
     hooks = {}
     for t, o in pat.items():
-        if o[0] == 'diag':
+        if o[0] == 'onehot':
+            def h(ten, i=o[1]):
+                from fggs.indices import SumAxis, unitAxis
+                zero = ten[(i + 1) % ten.shape[0]].item()         # the value off the hot position (the semiring zero)
+                return PatternedTensor(ten[i].clone(), (), (SumAxis(i, unitAxis, ten.shape[0] - i - 1),), zero)
+        elif o[0] == 'diag':
             def h(ten, i=o[1], j=o[2]):
                 axes = [PhysicalAxis(n) for n in ten.shape]
                 off = [0] * ten.ndim
